@@ -87,8 +87,6 @@ def make_trees(specgen_valid):
     pk = {"name": "TalkRequestClientPacket", "kind": "packet", "dir": "net/client", "family": "Talk", "action": "Request", "code": [field("m", "string")], "rt": True}
     trees.append(("map-refers-to-net-client", tD, [S_("ByteCoords", "net/client", field("x", "char")), S_("Emf", "map", field("c", "ByteCoords")), dict(pk)]))
     trees.append(("net-refers-to-net-client", {k: dict(v) for k, v in lib.items()}, [S_("ByteCoords", "net/client", field("x", "char")), S_("Hdr", "net", field("c", "ByteCoords")), dict(pk)]))
-    # F: a field named like a Python keyword (the grammar does not restrict names; known finding F12)
-    trees.append(("keyword-field-name", {k: dict(v) for k, v in lib.items()}, [S_("Warp", "map", field("from", "char"), field("to", "char")), dict(pk)]))
     # C: SpecGen programs spread over the files
     tC = {k: dict(v) for k, v in lib.items()}
     pC = []
